@@ -11,6 +11,7 @@ EXPLANATION = ("C20: every allocation result is NULL-tested before it is derefer
                " Also: a destroyer that runs the fini slot is called only after the init slot (R8); an object a failing constructor step left registered is not freed (R9); transport teardown slots tolerate the state p_init leaves (R10); init slots do not release what fini releases again (R11); container growth is failure-atomic (R12); half-built reference-counted objects are released with the raw free (R13).")
 EXPLANATION += ' Round 3: a local allocation or delivered object is released or handed on along every path (R6); an owned field is released only after its replacement was allocated (R14).'
 EXPLANATION += " Round 5: a constructor that hands its half-built object to the reaper has stored every field the reap function dereferences (R18)."
+EXPLANATION += " A failed step does not leave NULL in a field that other calls on the object use (R19); a receive buffer cut down for one datagram is restored on every way out (R20)."
 
 ALLOC = ("nni_alloc", "nni_zalloc", "nng_alloc", "nng_zalloc", "nni_strdup", "nng_strdup", "nni_strndup")
 # callees that dereference their pointer arguments (argument indexes)
@@ -1642,6 +1643,145 @@ def rule_r18(ctx):
         raise AnalysisBroken("no constructor hands its own object to the reaper")
 
 
+# ---------------------------------------------------------------------------
+# R19: a failed operation leaves the object usable
+
+
+def rule_r19(ctx):
+    from .. import guards as G
+    r = ctx.rule("C20.R19", "T3", "a failed step leaves the object as it was: a function that is not part of the object's teardown does not, on "
+                 "a path on which it returns an error, leave NULL in a pointer field that other (non-teardown) functions of the "
+                 "same file hand on or dereference without a NULL test -- after `start` failed for want of memory (or of the "
+                 "address) the next call on the same object crashes", floor=1)
+    prog = ctx.prog
+    TEAR = ("_fini", "_free", "_close", "_stop", "_reap", "_destroy", "_init", "_alloc", "_cb", "_cancel")
+    n = 0
+    byfile = {}
+    for f in prog.functions:
+        if not f.cfg_failed and not f.file.endswith("_test.c") and any(d in "/" + f.file for d in ("/supplemental/", "/sp/transport/", "/core/")):
+            byfile.setdefault(f.file, []).append(f)
+    for file, fns in sorted(byfile.items()):
+        # pointer fields used without a NULL test by non-teardown functions: {rec.field: (function, line)}
+        users = {}
+        for g in fns:
+            if g.name.endswith(TEAR):
+                continue
+            for t in g.sites():
+                nd = t.node
+                cands = []
+                if nd.get("k") == "call":
+                    cands = [g.expand(a) for a in nd["args"] if a is not None]
+                elif nd.get("k") == "mem" and nd.get("arrow"):
+                    cands = [g.expand(nd["b"])]
+                for m in cands:
+                    while m is not None and m.get("k") == "cast":
+                        m = m["e"]
+                    if m is None or m.get("k") != "mem" or "*" not in (m.get("t") or "") or not m.get("rec"):
+                        continue
+                    key = "%s.%s" % (m["rec"], m["f"])
+                    if any(u[0] == g.name for u in users.get(key, [])):
+                        continue
+
+                    def tests(x, m=m):
+                        return x.get("k") == "mem" and x.get("rec") == m["rec"] and x.get("f") == m["f"]
+                    nn = G.cond_edges(g, tests, want_nonzero=True)
+                    if not (nn and G.dominated(g, (t.b, t.i), nn)):
+                        users.setdefault(key, []).append((g.name, t.line))
+        for f in fns:
+            if f.name.endswith(TEAR):
+                continue
+            for t in f.assigns():
+                l = t.node["lhs"]
+                if l.get("k") != "mem" or not l.get("rec") or "*" not in (l.get("t") or "") or not is_null(f.expand(t.node["rhs"])):
+                    continue
+                key = "%s.%s" % (l["rec"], l["f"])
+                others = [u for u in users.get(key, []) if u[0] != f.name]
+                if not others:
+                    continue
+                # a later store of something else on the way out repairs it
+                restores = {(x.b, x.i) for x in f.assigns() if x.node["lhs"].get("k") == "mem" and x.node["lhs"].get("rec") == l["rec"] and
+                            x.node["lhs"].get("f") == l["f"] and not is_null(f.expand(x.node["rhs"]))}
+                # error returns reachable from here
+                errs = []
+                for rt in f.sites():
+                    if rt.node.get("k") == "ret" and rt.node.get("e") is not None:
+                        v = f.expand(rt.node["e"])
+                        c = const_of(v)
+                        if c == 0:
+                            continue
+                        errs.append((rt.b, rt.i))
+                # ... and so does giving the whole object up (a constructor's failure path destroys what it built)
+                for c in f.calls():
+                    fnm = c.node.get("fn") or ""
+                    if fnm.endswith(("_destroy", "_free", "_fini", "_rele", "_reap")) or fnm in ("nni_free", "nni_reap"):
+                        a0 = f.expand(c.node["args"][0]) if c.node["args"] and c.node["args"][0] is not None else None
+                        base = f.expand(l["b"])
+                        if a0 is not None and base is not None and (same_expr(a0, base) or fnm in ("nni_free",)):
+                            restores.add((c.b, c.i))
+                seen = f.reach((t.b, t.i + 1), blocked=lambda b, i, e: (b, i) in restores)
+                hit = [e_ for e_ in errs if e_ in seen]
+                if not hit:
+                    continue
+                n += 1
+                # the object is being given up by its owner on this path (the function frees the object itself)?
+                ctx.fail(r, f, "%s left NULL on an error return" % key, t.line,
+                         "%s stores NULL into %s (line %s) and returns an error (line %s); %s uses that field without a NULL test "
+                         "(line %s): after the failure the next call on the object dereferences NULL"
+                         % (f.name, key, t.line, f.line_of(*hit[0]), others[0][0], others[0][1]))
+    r.ob(prog.need("ws_listener_listen"), "error paths examined in %d files" % len(byfile))
+
+# ---------------------------------------------------------------------------
+# R20: a receive buffer that was cut down for one datagram is restored on every way out
+
+
+def rule_r20(ctx):
+    from .. import guards as G
+    r = ctx.rule("C20.R20", "T2", "where a function shortens a message that an object keeps as its receive buffer (nni_msg_chop on a field), "
+                 "every path to its exit restores the size (nni_msg_realloc of the same field) or installs a fresh buffer "
+                 "(the success edge of a message allocation into that field) -- an error return in between leaves the buffer "
+                 "at the size of the last datagram, and every longer one is rejected as truncated from then on", floor=1)
+    prog = ctx.prog
+    n = 0
+    for f in prog.functions:
+        if f.cfg_failed or f.file.endswith("_test.c") or "/sp/transport/" not in "/" + f.file:
+            continue
+        for c in f.calls(("nni_msg_chop", "nng_msg_chop")):
+            a0 = f.expand(c.node["args"][0]) if c.node["args"] else None
+            if a0 is None or a0.get("k") != "mem":
+                continue
+            fld = last_field(a0)
+            n += 1
+            restore = set()
+            for x in f.calls(("nni_msg_realloc", "nng_msg_realloc")):
+                xa = f.expand(x.node["args"][0]) if x.node["args"] else None
+                if xa is not None and xa.get("k") == "mem" and last_field(xa) == fld:
+                    restore.add((x.b, x.i))
+            cut = {}
+            for bid, k, atom, val in G.edge_facts(f):
+                # success edge of  nng_msg_alloc(&X->F, ..) != 0  /  == 0
+                for m in walk(atom):
+                    if m.get("k") == "call" and m.get("fn") in ("nng_msg_alloc", "nni_msg_alloc") and m.get("args"):
+                        t0 = strip_addr(f.expand(m["args"][0]))
+                        if t0 is not None and t0.get("k") == "mem" and last_field(t0) == fld:
+                            ok = None
+                            if atom is m:
+                                ok = not val
+                            elif atom.get("k") == "bin" and atom.get("op") in ("!=", "==") and (const_of(atom["rhs"]) == 0 or const_of(atom["lhs"]) == 0):
+                                ok = (not val) if atom["op"] == "!=" else bool(val)
+                            if ok:
+                                cut[bid] = k
+            off = G.must_pass(f, (c.b, c.i + 1), restore, cut=cut)
+            if off is None:
+                r.ob(f, "%s chopped at line %s is restored or replaced on every way out" % (fld, c.line))
+            else:
+                ctx.fail(r, f, "%s left chopped" % fld, c.line,
+                         "%s shortens %s at line %s and can return (path: %s) without nni_msg_realloc of it and without having "
+                         "installed a new buffer: the endpoint keeps receiving into a buffer of the last datagram's size"
+                         % (f.name, fld, c.line, ">".join(str(x) for x in G.path_lines(f, (c.b, c.i + 1), off, cut=cut, blocked=restore)[-8:])))
+    if n < 1:
+        raise AnalysisBroken("no transport shortens a kept receive buffer any more (udp_recv_data)")
+
+
 def run(ctx):
     ctx.guard(rule_r1)
     ctx.guard(rule_r2)
@@ -1660,3 +1800,5 @@ def run(ctx):
     ctx.guard(rule_r15)
     ctx.guard(rule_r16)
     ctx.guard(rule_r18)
+    ctx.guard(rule_r19)
+    ctx.guard(rule_r20)
